@@ -49,11 +49,15 @@ def rand_array(rng, rank=None, maxrank=4, maxn=4, minn=0, vkind=None, dims=None,
     return {"axes": axes, "vkind": vkind or rng.choice(["f", "f", "i"])}
 
 
-def absent_label(rng, ax):
+def absent_label(rng, ax, frac=False):
     """a label of the axis' kind that is not on the axis"""
     present = {tuple(l) for l in ax["labels"]}
     if ax["kind"] == "i":
         cands = [enc(v) for v in range(-5, 15)]
+        if frac and ax["labels"] and rng.random() < 0.3:
+            # a non-integral request next to a stored integer label (must not be truncated onto it)
+            b = rng.choice(ax["labels"])
+            return enc(Fraction(b[1], b[2]) + rng.choice([Fraction(1, 2), Fraction(1, 4), Fraction(-1, 4), Fraction(-1, 2)]))
     elif ax["kind"] == "f":
         cands = [enc(Fraction(k, 8)) for k in range(-20, 90)]
     else:
